@@ -28,6 +28,7 @@ fn main() {
             let mut repo = "/repo".to_string();
             let mut out = None;
             let mut only = None;
+            let mut traces_out: Option<String> = None;
             let mut i = 3;
             while i < args.len() {
                 let a = args[i].as_str();
@@ -39,6 +40,7 @@ fn main() {
                     "--repo" => repo = v.unwrap_or(repo),
                     "--out" => out = v,
                     "--only" => only = v,
+                    "--traces" => traces_out = v,
                     _ => usage(),
                 }
                 i += 2;
@@ -53,6 +55,14 @@ fn main() {
                 }
             };
             let wall = start.elapsed().as_secs_f64();
+            if let Some(tf) = &traces_out {
+                let mut txt = String::new();
+                for t in &rep.traces {
+                    txt.push_str(&serde_json::to_string(t).unwrap());
+                    txt.push('\n');
+                }
+                std::fs::write(tf, txt).expect("write --traces");
+            }
             let doc = json!({
                 "property": prop,
                 "tier": if tier == Tier::Quick { "quick" } else { "thorough" },
